@@ -536,6 +536,22 @@ func (w *World) WaitIdle(opts IdleOpts) bool {
 	}
 }
 
+// Wedged reports a deadlock of the system under test: work is declared pending, yet for the whole window
+// no hook fired, no block fetch is parked (gate, unknown block) and nothing is in flight. Nothing that is
+// running could end such a state. It is a logical condition; the window only bounds how long the silence
+// is observed.
+func (w *World) Wedged(window time.Duration) bool {
+	gen := w.H.Generation()
+	deadline := time.Now().Add(window)
+	for time.Now().Before(deadline) {
+		if (w.H.Pending() == 0 && w.ReplicatorsIdle()) || w.Blocked() > 0 || w.InflightLen() > 0 || w.H.Generation() != gen {
+			return false
+		}
+		time.Sleep(5 * time.Millisecond)
+	}
+	return true
+}
+
 // Settle delivers nothing; it just waits for rest with default options.
 func (w *World) Settle() bool { return w.WaitIdle(IdleOpts{}) }
 
